@@ -14,7 +14,7 @@ import os
 import time
 
 from . import common
-from .common import EXEC_HORIZON, ExecTimeout, InternalError, log, pmap, time_limit
+from .common import EXEC_HORIZON, HORIZON_RETRY_FACTOR, ExecTimeout, InternalError, log, pmap, time_limit
 from .rawread import RawState
 from .report import Violation
 from .views import handle_state
@@ -34,6 +34,7 @@ class SeqSpec:
     with_sources = True
     thresholds = None             # (_IN_SQL_MAX_LENGTH, _MAX_CHUNK_ITERATE_LENGTH) or None for the defaults
     tolerate_exceptions = False   # an operation may refuse (raise); only the state oracles judge
+    horizon = EXEC_HORIZON        # seconds allowed for one execution (history replay + operation + oracles)
 
     def roots(self):
         """List of (name, config, prefix_history)."""
@@ -128,26 +129,29 @@ def _expand_task(arg):
     _install_listdir(spec.listdir_order)
     out = []
     for op in ops:
-        w = None
-        try:
-            with time_limit(EXEC_HORIZON):
-                w = _replay(spec, root, hist)
-                before = RawState(w.root)
-                model_before = w.model.copy()
-                res = w.apply(op)
-                after = RawState(w.root)
-                viols = []
-                if not res.ok and not (spec.tolerate_exceptions and res.clause == 'unexpected-exception'):
-                    viols.append((res.clause, res.detail))
-                canon = _canon(w, after)
-                mstate = w.model.state()
-                viols += spec.step_check(w, before, after, res, hist, model_before)   # may disturb the world: runs last
-                out.append((op, canon, mstate, viols))
-        except ExecTimeout as exc:
-            out.append((op, ('hang', repr(hist), repr(op)), None, [('hang', f'operation {op} after {hist}: {exc}')]))
-        finally:
-            if w is not None:
-                w.close()
+        for horizon in (spec.horizon, spec.horizon * HORIZON_RETRY_FACTOR):
+            w = None
+            try:
+                with time_limit(horizon):
+                    w = _replay(spec, root, hist)
+                    before = RawState(w.root)
+                    model_before = w.model.copy()
+                    res = w.apply(op)
+                    after = RawState(w.root)
+                    viols = []
+                    if not res.ok and not (spec.tolerate_exceptions and res.clause == 'unexpected-exception'):
+                        viols.append((res.clause, res.detail))
+                    canon = _canon(w, after)
+                    mstate = w.model.state()
+                    viols += spec.step_check(w, before, after, res, hist, model_before)   # may disturb the world: runs last
+                    out.append((op, canon, mstate, viols))
+                break
+            except ExecTimeout as exc:
+                if horizon != spec.horizon:
+                    out.append((op, ('hang', repr(hist), repr(op)), None, [('hang', f'operation {op} after {hist}: {exc} (also on the retry)')]))
+            finally:
+                if w is not None:
+                    w.close()
     return out
 
 
@@ -157,19 +161,22 @@ def _state_task(arg):
     _install_listdir(spec.listdir_order)
     if expect_canon and expect_canon[0] == 'hang':
         return []
-    w = None
-    try:
-        with time_limit(EXEC_HORIZON):
-            w = _replay(spec, root, hist)
-            raw = RawState(w.root)
-            if expect_canon is not None and _canon(w, raw) != expect_canon:
-                raise InternalError(f'nondeterministic replay of {hist}: canonical state differs between two executions')
-            return spec.state_check(w, raw, hist)
-    except ExecTimeout as exc:
-        return [('hang', f'state check after {hist}: {exc}')]
-    finally:
-        if w is not None:
-            w.close()
+    for horizon in (spec.horizon, spec.horizon * HORIZON_RETRY_FACTOR):
+        w = None
+        try:
+            with time_limit(horizon):
+                w = _replay(spec, root, hist)
+                raw = RawState(w.root)
+                if expect_canon is not None and _canon(w, raw) != expect_canon:
+                    raise InternalError(f'nondeterministic replay of {hist}: canonical state differs between two executions')
+                return spec.state_check(w, raw, hist)
+        except ExecTimeout as exc:
+            if horizon != spec.horizon:
+                return [('hang', f'state check after {hist}: {exc} (also on the retry)')]
+        finally:
+            if w is not None:
+                w.close()
+    return []
 
 
 def _dominated(pairs, d, v):
@@ -310,7 +317,7 @@ def _nomerge_task(arg):
     w = None
     out = []
     try:
-        with time_limit(EXEC_HORIZON):
+        with time_limit(spec.horizon * HORIZON_RETRY_FACTOR):
             w = _make_world(spec, root)
             for i, op in enumerate(hist):
                 before = RawState(w.root)
